@@ -16,7 +16,7 @@ PROPERTY = "C15"
 SPECIES = ["A", "B", "C"]
 RULES = ["r", "q"]
 IDS = ["<gen>", "r_1", "r_2", "q_1", "x"]
-ALPHABET = sorted(set(SPECIES + RULES + IDS + ["add", "rm", "rmsp", "merge", "copy", "mol", "molmap", "keep"]))
+ALPHABET = sorted(set(SPECIES + RULES + IDS + ["add", "rm", "rmsp", "merge", "copy", "mol", "molmap", "keep", "cpedit"]))
 
 # stoichiometry pool: (reactants, products)
 POOL = [
@@ -31,9 +31,12 @@ POOL = [
     ({"B": 1}, {"B": 1}),
 ]
 
+CP_POOL = [({"A": 1, "B": 2}, {"C": 1}), ({"C": 1}, {"A": 1}), ({"A": 1}, {"A": 1, "B": 1}), ({"B": 1}, {})]
+
 META = dict(
     bounds=dict(
-        quick="histories of <= 3 operations (ids family) / <= 3 (index family) over 3 species, 2 rules, explicit ids "
+        quick="histories of <= 3 operations (ids family) / <= 2 (index family) / <= 3 (copy family; thorough 4: 4 stoichiometries, "
+              "copy, edit-a-copy, remove species/reaction) over 3 species, 2 rules, explicit ids "
               "{r_1,r_2,q_1,x} or generated, 9 stoichiometries incl. catalyst, source, sink, trivial, coefficient 2",
         thorough="histories of <= 4 operations in both families",
     ),
@@ -139,10 +142,12 @@ def h_history(E, depth, family):
     succeeded = 0
     if family == "ids":
         ops = ["add", "rm", "merge", "copy"]
+    elif family == "cp":
+        ops = ["add", "rm", "rmsp", "copy", "cpedit"]
     else:
         ops = ["add", "rm", "rmsp", "mol", "molmap", "copy"]
     for i in range(depth):
-        op = E.choice("op%d" % i, ops)
+        op = E.choice("op%d" % i, ops if not (family == "cp" and i == 0) else ["add"])
         before = snapshot(h)
         refb = ref.clone()
         raised = None
@@ -153,6 +158,9 @@ def h_history(E, depth, family):
                 # each reaction of a history gets its own stoichiometry (coefficient i+1) so "own stoichiometry"
                 # is checkable
                 r, p = {"A": 1}, {"B": i + 1}
+            elif family == "cp":
+                k = E.int("st%d" % i, 0, 3)
+                r, p = CP_POOL[int(k)]
             else:
                 k = E.int("st%d" % i, 0, len(POOL) - 1)
                 r, p = POOL[int(k)]
@@ -271,6 +279,18 @@ def h_history(E, depth, family):
         elif op == "copy":
             c = h.copy()
             copies.append((c, snapshot(c), ref.clone()))
+        elif op == "cpedit":
+            # edit a copy: the original must not notice
+            c = h.copy()
+            s = str(E.choice("sp%d" % i, SPECIES))
+            try:
+                c.remove_species(s)
+            except KeyError:
+                pass
+            c.add_rxn({"C": 3}, {"B": 3}, rule="r")
+            if snapshot(h) != before:
+                E.check(True, "original-affected-by-edit-of-copy", dict(step=i, species=s))
+                return
         if raised is not None:
             if snapshot(h) != before:
                 E.check(True, "failed-operation-changed-the-store", dict(step=i, op=str(op), error=repr(raised)))
@@ -306,4 +326,5 @@ def shards(tier, seed):
     return [
         dict(h="history", params=dict(depth=d, family="ids")),
         dict(h="history", params=dict(depth=di, family="idx")),
+        dict(h="history", params=dict(depth=d, family="cp")),
     ]
